@@ -15,6 +15,10 @@ proof side     : Props/C12.lean (pol_heun_formula, pol_boundary_rule, pol_impl_f
                  Model `sweep` incl. the norm; gen_impl_while_eq: generated while with fuel >= N+1 = Model `implLoop` with fuel N;
                  gen_pol_impl_eq: whenever Model `implStep` returns within N sweeps the generated function returns and the row-major list of the
                  new f is the model's (same contract on the eval_spline_2d_cross tables), entries outside the box untouched).
+                 Props/C12Gen3.lean (the table contract DISCHARGED: with the uninterpreted evaluator parameters instantiated by the generated
+                 nu_/cu_eval_spline_2d_scalar and nu_/cu_eval_spline_2d_cross the contract is a theorem (nu_table_contract, cu_table_contract, from
+                 C07Gen6); gen_pol_expl_eq_nu/_cu, gen_pol_impl_eq_nu/_cu = the conclusions of gen_pol_expl_eq / gen_pol_impl_eq without the
+                 hypothesis; guards: sorted phi knots with non-degenerate domains (general path), deg1Phi = deg2Phi = 3 (uniform-cubic path)).
 correspondence : real `PoloidalAdvection.step(f, dt, phi, v)` (explicitTrap True/False, nulEdge True/False) vs. the model at Q
                  (Drivers/C11.lean, op "pol").  The model receives the coefficients of the real phi spline and of the real
                  interpolant of the old f and evaluates them exactly; `x % (2*pi)` is `x - P*floor(x/P)` with P the double
@@ -708,7 +712,11 @@ def run(chk):
     common.run_translator(chk, 'translate_pure.py', '--only', 'polexpl')
     # Props/C12Gen2.lean: Generated/PolImplGen.lean = the implicit step (sweeps until norm <= tol, then the value at the feet)
     common.run_translator(chk, 'translate_pure.py', '--only', 'polimpl')
-    chk.proof_side(build=not getattr(chk, 'no_build', False), extra_props=('C12Extra', 'C12Gen', 'C12Gen2', 'C12NonTerm'))
+    # Props/C12Gen3.lean discharges the table contract of C12Gen / C12Gen2 with the generated evaluators: Generated/Eval2DGen.lean (and the 1-D kernels it
+    # calls) and Generated/Cross2DGen.lean must be the current source too
+    for tgt in ('basisfuns', 'eval1d', 'cueval', 'eval2d', 'cross2d'):
+        common.run_translator(chk, 'translate_pure.py', '--only', tgt)
+    chk.proof_side(build=not getattr(chk, 'no_build', False), extra_props=('C12Extra', 'C12Gen', 'C12Gen2', 'C12NonTerm', 'C12Gen3'))
     C = Constants()
     drv = common.LeanDriver('C11.lean')
     try:
